@@ -4,6 +4,96 @@
 use super::*;
 use crate::verif_common::*;
 
+fn tokenizer_at(source: &'static str, line: u16, col: u16, offset: usize) -> Tokenizer<'static> {
+    Tokenizer {
+        source,
+        filename: "f",
+        stack: Vec::new(),
+        current_line: line,
+        current_col: col,
+        current_offset: offset,
+        paren_balance: 0,
+        trim_leading_whitespace: false,
+        pending_start_marker: None,
+        syntax_config: SyntaxConfig::default(),
+        ws_config: WhitespaceConfig::default(),
+    }
+}
+
+// @verif props=C14,C01 tier=quick cap=600 group=core fns=Tokenizer::syntax_error,Tokenizer::loc,Tokenizer::span
+/// A syntax error can be reported at ANY position the tokenizer can be in (line/column saturate at 65535):
+/// building the error never panics or overflows and the reported span is well formed (end >= start).
+#[kani::proof]
+#[kani::unwind(4)]
+#[kani::stub(alloc::fmt::format, crate::verif_common::format_stub)]
+fn c14_syntax_error_at_any_position() {
+    let line: u16 = kani::any();
+    let col: u16 = kani::any();
+    let offset: usize = kani::any();
+    kani::assume(line >= 1 && offset <= 4);
+    let mut t = tokenizer_at("abcd", line, col, offset);
+    let (l, c, o) = t.loc();
+    assert!(l == line && c == col && o as usize == offset);
+    let sp = t.span((l, c, o));
+    assert!(sp.start_line == sp.end_line && sp.start_col == sp.end_col && sp.start_offset == sp.end_offset);
+    let e = t.syntax_error("x");
+    assert!(matches!(e.kind(), ErrorKind::SyntaxError));
+    assert!(e.line() == Some(line as usize));
+    kani::cover!(col == u16::MAX);
+    kani::cover!(line == u16::MAX);
+    core::mem::forget((e, t));
+}
+
+macro_rules! advance_harness {
+    ($name:ident, $src:expr, $nl:expr, $chars:expr) => {
+        #[kani::proof]
+        #[kani::unwind(8)]
+        fn $name() {
+            let line: u16 = kani::any();
+            let col: u16 = kani::any();
+            kani::assume(line >= 1);
+            let mut t = tokenizer_at($src, line, col, 0);
+            let n = $src.len();
+            let skipped = t.advance(n);
+            assert!(skipped.len() == n);
+            assert!(t.current_offset == n);
+            // the line advances by exactly the number of '\n' bytes (saturating at 65535)
+            assert!(t.current_line == line.saturating_add($nl));
+            if $nl == 0 {
+                // and the column by the number of characters (not bytes), saturating
+                assert!(t.current_col == col.saturating_add($chars));
+            }
+            kani::cover!(line == u16::MAX);
+            kani::cover!(col > 65000);
+            core::mem::forget(t);
+        }
+    };
+}
+
+// @verif-block props=C14 tier=quick cap=600 group=core doc=Tokenizer::advance_over_the_listed_text_from_ANY_(line,column):_offset_advances_by_the_byte_length,_the_line_by_exactly_the_number_of_newlines_(the_kernel_of_"inserting_N_lines_shifts_the_reported_line_by_N"),_the_column_by_characters_not_bytes,_all_saturating_at_65535_instead_of_overflowing
+advance_harness!(c14_advance_plain, "ab", 0, 2);
+advance_harness!(c14_advance_multibyte, "\u{e9}x", 0, 2);
+advance_harness!(c14_advance_two_newlines, "a\n\nb", 2, 0);
+advance_harness!(c14_advance_crlf, "\r\n", 1, 0);
+// @verif-end
+
+// @verif props=C10 tier=quick cap=300 group=core fns=Whitespace::from_byte,Whitespace::len
+/// The whitespace-control marker after a tag start is '-' (remove) or '+' (preserve) and nothing else,
+/// for every byte.
+#[kani::proof]
+#[kani::unwind(3)]
+fn c10_whitespace_marker_bytes() {
+    let b: Option<u8> = kani::any();
+    let ws = Whitespace::from_byte(b);
+    match b {
+        Some(b'-') => assert!(ws == Whitespace::Remove && ws.len() == 1),
+        Some(b'+') => assert!(ws == Whitespace::Preserve && ws.len() == 1),
+        _ => assert!(ws == Whitespace::Default && ws.len() == 0),
+    }
+    kani::cover!(b == Some(b'+'));
+    kani::cover!(b.is_none());
+}
+
 #[cfg(test)]
 mod playback {
     use super::*;
